@@ -15,6 +15,24 @@ Theorem C05_accepted_has_no_undefined_use : forall (o : oracle), fair o -> foral
     get old (u_ns u) (u_id u) <> None.
 Proof. exact accepted_has_no_undefined_use. Qed.
 
+(* a second definition of the same identifier -- comdat, global (variables, functions, aliases, ifuncs share
+   the namespace; unnamed ones after numbering) or metadata -- anywhere in the module, whatever lies between
+   the two and whatever the map order: no module is returned *)
+Theorem C05_duplicate_definition_is_error : forall (o : oracle) sort_idents l l1 n i t1 l2 t2 l3, strict n = true ->
+  number_globals l 0 = l1 ++ (n, i, t1) :: l2 ++ (n, i, t2) :: l3 -> is_ok (Skeleton.translate o sort_idents l) = false.
+Proof. exact translate_rejects_duplicates. Qed.
+(* types: the same, when the first of two consecutive definitions of the name is not `opaque` (the accepted
+   case is the recorded finding KF-24, refuted below); attribute groups merge by design *)
+Theorem C05_duplicate_type_is_error : forall (o : oracle) sort_idents l l1 i t1 l2 t2 l3, t_kind t1 <> KOpaque ->
+  (forall t', ~ In (NType, i, t') l1) -> (forall t', ~ In (NType, i, t') l2) ->
+  number_globals l 0 = l1 ++ (NType, i, t1) :: l2 ++ (NType, i, t2) :: l3 -> is_ok (Skeleton.translate o sort_idents l) = false.
+Proof. exact translate_rejects_duplicate_types. Qed.
+Example C05_duplicate_global_rejected :
+  strict NGlobal = true /\
+  number_globals [mk NGlobal nameA KPlain []; mk NMeta nameB KPlain []; mk NGlobal nameA KPlain []] 0
+  = [] ++ (NGlobal, nameA, mk NGlobal nameA KPlain []) :: [(NMeta, nameB, mk NMeta nameB KPlain [])] ++ (NGlobal, nameA, mk NGlobal nameA KPlain []) :: [].
+Proof. split; reflexivity. Qed.
+
 (* function level (Pipeline/MicroIRResolve.v, arbitrary ASTs): an undefined local or global operand is
    an error, a duplicated local definition is an error *)
 Theorem C05_undefined_local_is_error : forall gidx lidx t i, (forall k, ~ In (k, i) lidx) ->
